@@ -221,7 +221,8 @@ def verifyThresholds (env : Env K) (ord : Ord) (L : Layout K)
   | st :: rest, acc =>
     let links := (lookup st.name loaded).getD []
     let good := goodLinks env ord L st (ord.perm 1 links) []
-    if good.length < st.threshold then .err 4
+    -- (evidence is filed by step name: a second step of a name already seen is an error)
+    if decide (good.length < st.threshold) || (lookup st.name acc).isSome then .err 4
     else verifyThresholds env ord L loaded rest (upsert st.name good acc)
 
 /-! ### stages 7, 8: agreement and reduction -/
